@@ -43,6 +43,11 @@ var c01Corpus = []string{
 	// B24: a local binding named like a static function
 	"let abs = x -> x + a; abs(0 - 3)",
 	"func sqr(x) x + 1; sqr(a)",
+	// a failing element inside an operand of `=` / `!=` / `~`, inside a value that is printed, a method on a type without methods
+	"try ([1, 2, 3].map(e -> if e = a then throw(\"x\") else e) = [1, 2, 3]) catch 0 - 1", "try ([1, 2, 3] = [1, 2, 3].map(e -> if e = a then throw(\"x\") else e)) catch 0 - 1",
+	"try ([1, 2].map(e -> throw(\"l\")) != [1, 2].map(e -> throw(\"r\"))) catch 0 - 1", "try (2 ~ [1, 2, 3].map(e -> if e = a then throw(\"x\") else e)) catch 0 - 1",
+	"try {k: [1, 2].map(e -> if e = a then throw(\"x\") else e), j: 1}.string() catch \"caught\"", "try [[1, 2].map(e -> if e = a then throw(\"x\") else e)].string() catch \"caught\"",
+	"try t.size() catch 0 - 1", "try (x -> x).size() catch 0 - 1", "try a.nosuch(1) catch 0 - 1", "try s.nosuch() catch 0 - 1", "try {k: 1}.nosuch() catch 0 - 1",
 	// wrong argument counts at every kind of call site (closure value, func, map-field closure through method syntax, built-in method)
 	"try (x -> x + a)(1, 2) catch 0 - 1", "try ((x, y) -> x + a)(1) catch 0 - 1", "func f(x) x + a; try f(1, 2) catch 0 - 1", "func f(x, y) x + a; try f(1) catch 0 - 1",
 	"try {f: x -> x + a}.f(1, 2) catch 0 - 1", "try {f: (x, y) -> x + a}.f(1) catch 0 - 1", "let mm = {f: x -> x + a, g: 1}; [try mm.f() catch 0 - 1, try mm.f(1, 2, 3) catch 0 - 2, mm.f(4)]",
